@@ -104,7 +104,8 @@ def classify_crash(rc, err, out):
     m = re.search(r"ERROR: AddressSanitizer: ([A-Za-z0-9_-]+)", err)
     if m:
         f = REPO_FRAME.search(err)
-        return ("SANITIZER", m.group(1) + "@" + (f.group(1) if f else "?"), first_lines(err, 12))
+        # the kind of a wild access (overflow vs SEGV) depends on what happens to be mapped: site = function only
+        return ("SANITIZER", "asan@" + (f.group(1) if f else "?"), first_lines(err, 12))
     m = re.search(r"([^/\s:]+\.[ch]):(\d+):\d+: runtime error: (.*)", err)
     if m:
         return ("SANITIZER", "ubsan@%s:%s" % (m.group(1), m.group(2)), m.group(3)[:300])
